@@ -15,11 +15,28 @@ Three kinds of cases
            duplicate options, missing include files: parse result compared with the model.
   options  option declarations x user options: merge_options compared with the model, the rule
            of the property evaluated on merge_options' result and on the value `${{name}}` shows.
+  names    ONE declared option whose name is drawn from the names a formula can see (built-in names
+           id/count/child_index/this/today/now/fake/template, plugin names, standard function names,
+           jinja globals, ordinary names), optionally also defined as a variable, a table name, a
+           nickname, a friend's table name or a field of the reading row.  ${{name}} is read at
+           several places (fields before/after the own field, friends, a later template, `count:`)
+           in four formula shapes (one shows the value's type).  Oracle: where no closer scope defines the name the formula
+           shows the supplied value, else the default; model: Macros.resolve (scope order).
+  fs       a file system of recipe files (colliding base names in different directories, ./ and
+           dir/../ spellings, files included twice, missing files, include cycles): parse result
+           vs. the model's path resolution (Macros.fs_parse_recipe); rows vs. the single file
+           obtained by writing every included file's content where its include_file line stands.
+  session  several generations in ONE process: every step factors an inline recipe into a file
+           tree written to the same paths as an earlier step (or the same relative paths in another
+           directory), optionally a same-length edit of the previous step's recipe, optionally
+           continuing the previous step's run; rows/parse result of every step compared with the
+           inline recipe given as a stream, every step's parse result with the model.
 """
 import copy
 import io
 import json
 import os
+import posixpath
 import random
 import shutil
 import tempfile
@@ -32,21 +49,36 @@ MODEL = "Macros"
 SHARD = 150
 CASE_TIMEOUT = 30
 RULE = ("cases: meta = inline recipe + random factoring into 1-4 (nested) macros with overriding "
-        "definitions and into 1-3 (nested) include files, parse results and rows of inline / "
+        "definitions and into 1-3 (nested) include files (half of them with base names that collide "
+        "between directories and ./, dir/../, // spellings of the path), parse results and rows of inline / "
         "macro-factored / file-factored compared with each other and the file tree's parse result "
         "with the model; tree = random file trees with duplicate/cyclic/unknown macros, duplicate "
         "options, missing files vs. the model; options = declarations x user values over "
         "{0,1,-1,False,True,'','0','x',None,absent}^2 (full grid) and random multi-option sets, "
-        "merge_options vs. the model and the rule checked on merge_options and on ${{name}}.  "
-        "non-trivial: the recipe uses >=1 macro include or >=1 include_file, or an option case "
-        "with >=1 declaration; distinct by case hash")
+        "merge_options vs. the model and the rule checked on merge_options and on ${{name}}; "
+        "names = one option named like a built-in name (all 8, grid always present) / plugin / standard "
+        "function / jinja global / ordinary name, optionally also a variable, table, nickname, friend "
+        "table or own field, read through 4 formula shapes (one shows the type) at 5 places and in `count:`: shown value vs. "
+        "the option rule where no closer scope defines the name, and vs. the model's scope order; "
+        "fs = file systems with 1-6 included files in 4 directories, colliding base names, respelled "
+        "paths, files included twice, missing files, cycles: parse result vs. the model's path "
+        "resolution, rows vs. the OS-inlined single file; session = 2-4 generations in one process "
+        "writing to the same paths (same-length edits, new recipes, unchanged, other directory, "
+        "continued runs): every step vs. its inline recipe and vs. the model.  "
+        "non-trivial: the recipe uses >=1 macro include or >=1 include_file, an option case "
+        "with >=1 declaration, a names case whose name another scope defines too, a session of >=2 "
+        "steps with include files; distinct by case hash")
 TRUSTED = ["harness/c14.py: YAML writer for the generated file trees (yaml.safe_dump, temp dir under "
-           "/var/tmp), canonical renderer of ParseResult statements (field name + definition text), "
-           "splitting of the `include:` string into names is done by the generator (names -> string)"]
+           "/var/tmp), canonical renderer of ParseResult statements (field name + definition text)",
+           "harness/c14.py names_layers: which scopes hold the case's name at each place of the fixed "
+           "recipe skeleton (the ORDER of the scopes is the model's); os_inline: the reference single "
+           "file of a file-system case, include paths followed by the operating system"]
 ASSUMPTIONS = ["the interpreter's rows are a function of ParseResult.statements / options "
                "(checked on every meta case by comparing rows, not proved)",
                "PyYAML round-trips the generated scalars and keeps mapping order",
-               "include_file graphs are trees (a file including itself is outside the model)"]
+               "no symbolic links below the recipe's directory; include_file paths that climb above "
+               "the main recipe's directory are outside the model (Unsupported)",
+               "names that jinja itself defines (true/false/none, loop, self, ...) are outside the scope model"]
 EXHAUSTIVE = {"quick": False, "thorough": False}
 
 VALS = [0, 1, -1, False, True, "", "0", "x", None]
@@ -55,7 +87,7 @@ FIELD_POOL = list("abcdefgh")
 TABLES = ["A", "B", "C", "D"]
 VAR_POOL = ["v", "w"]
 OPT_POOL = ["n", "k", "p"]
-INC_STYLES = [", ", ",", " , ", ",  "]
+INC_STYLES = [", ", ",", " , ", ",  ", ",\t", " , , "]
 
 
 # =================================================================== canonical renderings
@@ -158,6 +190,13 @@ def inc_string(names, style):
     return s
 
 
+def raw_include(it):
+    """the `include:` string of a template / macro as item_yaml writes it ('' when the key is absent)"""
+    if it["include"] or it.get("inc_empty"):
+        return inc_string(it["include"], it.get("inc_style", 0))
+    return ""
+
+
 def friend_yaml(fr):
     d = {"object": fr["table"]}
     if fr["fields"]:
@@ -203,7 +242,36 @@ def write_tree(f, path):
         fh.write(yaml.safe_dump(data, sort_keys=False, default_flow_style=False) if data else "[]\n")
     for it in f["items"]:
         if it["t"] == "inc" and it["file"] is not None:
-            write_tree(it["file"], os.path.join(os.path.dirname(path), it["path"]))
+            write_tree(it["file"], os.path.normpath(os.path.join(os.path.dirname(path), it["path"])))
+
+
+def tree_fs(f, name="main.yml", out=None):
+    """{path below the main recipe's directory: file node}: where write_tree puts the files of a tree"""
+    out = {} if out is None else out
+    if name in out:
+        raise ValueError("two files of the tree at " + name)
+    out[name] = f
+    for it in f["items"]:
+        if it["t"] == "inc" and it["file"] is not None:
+            tree_fs(it["file"], posixpath.normpath(posixpath.join(posixpath.dirname(name), it["path"])), out)
+    return out
+
+
+def write_fs(files, root):
+    """write {relative path: file node} below directory root"""
+    import yaml
+    for rel, f in files.items():
+        path = os.path.join(root, rel)
+        os.makedirs(os.path.dirname(path), exist_ok=True)
+        data = [item_yaml(it) for it in f["items"]]
+        with open(path, "w") as fh:
+            fh.write(yaml.safe_dump(data, sort_keys=False, default_flow_style=False) if data else "[]\n")
+
+
+def file_text(f):
+    import yaml
+    data = [item_yaml(it) for it in f["items"]]
+    return yaml.safe_dump(data, sort_keys=False, default_flow_style=False) if data else "[]\n"
 
 
 def tree_text(f, name="main.yml", out=None):
@@ -579,8 +647,11 @@ def _diamond(it, lead, own, chunks, rng, info, counter, junk, macs):
     return dict(it, include=inc, fields=own, friends=friends[jf:], inc_style=st())
 
 
-def factor_files(f, rng, info):
-    """move leading options / macros / statements into a (nested) forest of include files"""
+def factor_files(f, rng, info, srng=None):
+    """move leading options / macros / statements into a (nested) forest of include files.
+    srng (cases with fs_style): base names that collide between directories and other spellings
+    of the include_file path; drawn from a generator of its own, so that the factoring of a case
+    without fs_style never changes"""
     cats = {"opt": [], "macro": [], "stmt": [], "plugin": []}
     for it in f["items"]:
         cats["stmt" if it["t"] in ("obj", "var") else it["t"]].append(it)
@@ -605,7 +676,23 @@ def factor_files(f, rng, info):
     def inc_item(tree, depth):
         fcount[0] += 1
         sub = rng.choice(["", "", "sub%d/" % fcount[0]])
-        return {"t": "inc", "path": "%sinc%d.yml" % (sub, fcount[0]), "file": build(tree, depth)}
+        path = "%sinc%d.yml" % (sub, fcount[0])
+        if srng is not None:
+            if srng.random() < 0.4:          # the same base name in many directories
+                path = "sub%d/lib.yml" % fcount[0]
+                info["colliding_names"] += 1
+            d, b = posixpath.split(path)
+            r = srng.random()
+            if r < 0.2:
+                path = "./" + path
+            elif r < 0.35 and d:
+                path = d + "/../" + path      # into an existing directory and back
+            elif r < 0.45 and d:
+                path = d + "//" + b
+            elif r < 0.55 and d:
+                path = d + "/./" + b
+            info["respelled_paths"] += r < 0.2 or (r < 0.55 and bool(d))
+        return {"t": "inc", "path": path, "file": build(tree, depth)}
 
     incs = [inc_item(t, 1) for t in forest]
     info["files"] += k
@@ -617,7 +704,8 @@ def factorings(case):
     rng = random.Random(case["fseed"])
     info = Counter()
     a = factor_macros(copy.deepcopy(case["inline"]), rng, info)
-    b = factor_files(copy.deepcopy(a), rng, info)
+    srng = random.Random(case["fseed"] ^ 0x5A5A5A) if case.get("fs_style") else None
+    b = factor_files(copy.deepcopy(a), rng, info, srng)
     return a, b, dict(info)
 
 
@@ -733,14 +821,333 @@ def gen_options_random(rng):
     return opt_case(decls, user)
 
 
+# =================================================================== generation: names seen by formulas
+BUILTIN_NAMES = ["id", "count", "child_index", "this", "today", "now", "fake", "template"]
+PLUGIN_NAMES = {"Counters": "snowfakery.standard_plugins.Counters", "Math": "snowfakery.standard_plugins.Math"}
+FUNC_NAMES = ["date", "random_number", "reference", "random_choice", "if_", "datetime", "unique_id", "NULL",
+              "int", "relativedelta", "choice", "debug", "random_reference", "date_between",
+              "datetime_between", "snowfakery_filename", "unique_alpha_code"]
+ORDINARY_NAMES = ["colour", "k", "Tz", "range", "dict"]       # range / dict: jinja globals, no scope of the namespace
+NAME_VALS = VALS + [2, 3, 5, "2", "2001-02-03", "o v"]
+OBJ_KINDS = ["table_before", "nick_before", "table_after", "nick_after", "friend"]
+SHAPES = ["${{%s}}", "p${{%s}}q", "${{ [%s][0] }}", "${{ %s is string }};${{ %s is none }}"]   # the last: the value's type
+
+
+def shape_text(shape, name):
+    return SHAPES[shape].replace("%s", name)
+
+VARV, FLDV = "VARv", "FLDv"
+
+
+def names_case(name, has_default, default, user, version=2, var=False, obj=None, field=False, plugin=False,
+               rcount=2, count_read=False, shape=0):
+    return {"kind": "names", "name": name, "version": version,
+            "decl": {"has_default": has_default, "default": default if has_default else None},
+            "user": user, "var": var, "obj": obj, "field": field, "plugin": plugin,
+            "rcount": rcount, "count_read": count_read, "shape": shape}
+
+
+def gen_names_grid():
+    """always present: every built-in name as an option name, falsy / truthy, supplied / defaulted"""
+    out = []
+    for i, name in enumerate(BUILTIN_NAMES):
+        for j, (u, d) in enumerate([(ABSENT, 0), (False, 5), ("", ABSENT), ("2001-02-03", "x")]):
+            out.append(names_case(name, d != ABSENT, None if d == ABSENT else d, {} if u == ABSENT else {name: u},
+                                  version=2 + (i + j) % 2, shape=(i + j) % len(SHAPES)))
+    out.append(names_case("count", True, 3, {}, count_read=True, rcount=1))
+    out.append(names_case("child_index", False, None, {"child_index": 2}, count_read=True, version=3))
+    return out
+
+
+def gen_names(rng):
+    r = rng.random()
+    if r < 0.55:
+        name = rng.choice(BUILTIN_NAMES)
+    elif r < 0.67:
+        name = rng.choice(list(PLUGIN_NAMES))
+    elif r < 0.82:
+        name = rng.choice(FUNC_NAMES)
+    else:
+        name = rng.choice(ORDINARY_NAMES)
+    has_default = rng.random() < 0.7
+    default = rng.choice(NAME_VALS)
+    user = {}
+    if rng.random() < (0.45 if has_default else 0.9):
+        user[name] = rng.choice(NAME_VALS)
+    if rng.random() < 0.2:
+        user["zz"] = rng.choice(NAME_VALS)                   # an undeclared user option
+    plain = rng.random() < 0.5                                # no closer scope written in the recipe
+    c = names_case(name, has_default, default, user, version=rng.choice([2, 3]),
+                   var=(not plain) and rng.random() < 0.3,
+                   obj=rng.choice(OBJ_KINDS) if (not plain) and rng.random() < 0.4 else None,
+                   field=(not plain) and name != "id" and rng.random() < 0.4,
+                   plugin=name in PLUGIN_NAMES and rng.random() < 0.6,
+                   rcount=rng.choice([1, 2, 2, 3]), shape=rng.randrange(len(SHAPES)))
+    if c["version"] == 3 and (name in FUNC_NAMES or c["plugin"]):
+        c["shape"] = 1          # a function / plugin object is not a field value: show its text
+    if rng.random() < 0.3 and not _names_closer_at_count(c):
+        v = user.get(name, default) if (name in user or has_default) else None
+        if v in (0, 1, 2, 3, "2") and not isinstance(v, bool):
+            c["count_read"] = True
+    return c
+
+
+def _names_closer_at_count(c):
+    """does a scope closer than the options define the name where R's `count:` is evaluated?"""
+    return bool(c["var"] or c["plugin"] or c["name"] in FUNC_NAMES or
+                (c["obj"] in ("table_before", "nick_before", "table_after", "nick_after")))
+
+
+def names_recipe(c):
+    """the recipe of a names case as YAML data"""
+    name = c["name"]
+    read = shape_text(c["shape"], name)
+    data = []
+    if c["version"] == 3:
+        data.append({"snowfakery_version": 3})
+    if c["plugin"]:
+        data.append({"plugin": PLUGIN_NAMES[name]})
+    d = {"option": name}
+    if c["decl"]["has_default"]:
+        d["default"] = c["decl"]["default"]
+    data.append(d)
+    data.append({"option": "n", "default": 7})
+    if c["var"]:
+        data.append({"var": name, "value": VARV})
+    p0 = {"object": name if c["obj"] == "table_before" else "P0", "fields": {"z": 1}}
+    if c["obj"] == "nick_before":
+        p0["nickname"] = name
+    data.append(p0)
+    fields = {"r0": read}
+    if c["field"]:
+        fields[name] = FLDV
+    fields["r1"] = read
+    fields["rn"] = "${{n}}"
+    data.append({"object": "R", "count": ("${{%s}}" % name) if c["count_read"] else c["rcount"], "fields": fields,
+                 "friends": [{"object": name if c["obj"] == "friend" else "FR", "fields": {"r2": read}},
+                             {"object": "G", "fields": {"r3": read}}]})
+    p1 = {"object": name if c["obj"] == "table_after" else "P1", "fields": {"z": 1}}
+    if c["obj"] == "nick_after":
+        p1["nickname"] = name
+    data.append(p1)
+    data.append({"object": "R9", "fields": {"r4": read}})
+    return data
+
+
+def names_value(c):
+    """('value', v) | ('error', None): the option's value by the property's rule"""
+    return expected_option(dict(c["decl"], name=c["name"]), c["user"])
+
+
+def names_tables(c):
+    name = c["name"]
+    return {"R": "R", "FR": name if c["obj"] == "friend" else "FR", "G": "G", "R9": "R9"}
+
+
+def names_probes(c, rows):
+    """[(site table key, row index within the table, field, observed value)] from the JSON rows"""
+    tabs = names_tables(c)
+    per = {k: [r for r in rows if r.get("_table") == t] for k, t in tabs.items()}
+    out = []
+    for key, fields in (("R", ["r0", "r1"]), ("FR", ["r2"]), ("G", ["r3"]), ("R9", ["r4"])):
+        for i, row in enumerate(per[key]):
+            for f in fields:
+                if f in row:
+                    out.append((key, i, f, row[f]))
+    return out
+
+
+def names_layers(c, site, i, fld):
+    """the entries for the case's name in every scope at one probe: {layer: typed value or '?<layer>'}.
+    (what the harness knows about the recipe it wrote; the merge ORDER is the model's business)"""
+    name = c["name"]
+    row_id = 1 if site == "R9" else i + 1        # first iteration, one friend row per R row
+    child_index = i if site == "R" else 0
+    lay = {}
+    if name in ("id", "count"):
+        lay["builtin"] = ["i", row_id]
+    elif name == "child_index":
+        lay["builtin"] = ["i", child_index]
+    elif name in BUILTIN_NAMES:
+        lay["builtin"] = "?builtin"
+    kind, v = names_value(c)
+    if kind == "value":
+        lay["option"] = tag(v)
+    if c["obj"] in ("table_before", "nick_before", "table_after", "nick_after"):
+        lay["object"] = "?object"                # forward-reference slot or row: always there
+    elif c["obj"] == "friend" and not (site == "R" and i == 0):
+        lay["object"] = "?object"                # from the first row of the friend's table on
+    if name == "id":
+        lay["field"] = ["i", row_id]
+    elif c["field"] and site == "R" and fld == "r1":
+        lay["field"] = ["s", FLDV]
+    if c["plugin"]:
+        lay["plugin"] = "?plugin"
+    if name == "child_index":
+        lay["var"] = ["i", child_index]          # registered by every template's row loop
+    elif c["var"]:
+        lay["var"] = ["s", VARV]
+    if name in FUNC_NAMES:
+        lay["func"] = "?func"
+    return lay
+
+
+def shown(t, shape):
+    """text a formula of the given shape shows for a typed value (str() of the JSON value)"""
+    v = None if t[0] == "n" else t[1]
+    if shape == 3:
+        return "%s;%s" % (isinstance(v, str), v is None)
+    return "p%sq" % (v,) if shape == 1 else str(v)
+
+
+# =================================================================== generation: file systems
+FS_DIRS = ["", "sub", "sub/deep", "lib"]
+FS_BASES = ["a.yml", "b.yml", "lib.yml", "c.yml"]
+
+
+def _spell(rng, target, from_dir, dirs):
+    """an include_file string that names `target` from a file in directory from_dir"""
+    rel = posixpath.relpath(target, from_dir or ".")
+    r = rng.random()
+    if r < 0.15:
+        return "./" + rel
+    if r < 0.35:
+        # through a directory below from_dir and back; an existing one or (missing file!) not
+        below = sorted({d[len(from_dir):].lstrip("/").split("/")[0] for d in dirs
+                        if d and d != from_dir and (not from_dir or d.startswith(from_dir + "/"))} - {""})
+        if below and rng.random() < 0.85:
+            return rng.choice(below) + "/../" + rel
+        return ("nodir/../" + rel) if rng.random() < 0.25 else rel
+    if r < 0.42 and "/" in rel:
+        return rel.replace("/", "//", 1)
+    return rel
+
+
+def gen_fs(rng):
+    n = rng.choice([1, 2, 3, 3, 4, 5, 6])
+    paths = ["main.yml"]
+    while len(paths) < n + 1:
+        d = rng.choice(FS_DIRS)
+        pth = (d + "/" if d else "") + rng.choice(FS_BASES)
+        if pth not in paths:
+            paths.append(pth)
+    dirs = {posixpath.dirname(x) for x in paths}
+    files = {}
+    mnames = ["m1", "m2"]
+    for k, pth in enumerate(paths):
+        items = []
+        d = posixpath.dirname(pth)
+        later = paths[k + 1:]
+        for _ in range(rng.choice([0, 1, 1, 2, 2, 3]) if later else 0):
+            items.append({"t": "inc", "path": _spell(rng, rng.choice(later), d, dirs), "file": None})
+        r = rng.random()
+        if r < 0.07:
+            items.append({"t": "inc", "path": _spell(rng, rng.choice(paths[:k + 1]), d, dirs), "file": None})   # cycle / itself
+        elif r < 0.13:
+            items.append({"t": "inc", "path": rng.choice(["nosuch.yml", "sub/nosuch.yml", "lib.yml/x.yml", "sub"]), "file": None})
+        if rng.random() < 0.3:
+            hd = rng.random() < 0.8
+            items.append({"t": "opt", "name": rng.choice(OPT_POOL), "has_default": hd,
+                          "default": rng.choice(VALS) if hd else None})
+        for _ in range(rng.choice([0, 0, 1, 1, 2])):
+            items.append({"t": "macro", "name": rng.choice(mnames), "include": [], "friends": [],
+                          "fields": [["src", "macro in " + pth]] +
+                                    [[x, rng.choice([1, 2, "x"])] for x in rng.sample(FIELD_POOL[:3], rng.randint(0, 2))]})
+        for _ in range(rng.choice([0, 1, 1, 2]) if k else rng.choice([1, 2])):
+            if rng.random() < 0.15:
+                items.append({"t": "var", "name": rng.choice(VAR_POOL), "value": "var in " + pth})
+            else:
+                items.append({"t": "obj", "table": rng.choice(TABLES), "friends": [], "count": None,
+                              "include": [rng.choice(mnames)] if rng.random() < 0.4 else [],
+                              "fields": [["at", "stmt in " + pth]] + ([["v", "${{v}}"]] if rng.random() < 0.2 else [])})
+        rng.shuffle(items)
+        files[pth] = {"items": items}
+    # mostly: every macro a template uses is defined somewhere (else the recipe is simply rejected)
+    defined = {it["name"] for f in files.values() for it in f["items"] if it["t"] == "macro"}
+    for f in files.values():
+        for it in f["items"]:
+            if it["t"] == "obj" and it["include"] and it["include"][0] not in defined and rng.random() < 0.85:
+                it["include"] = [rng.choice(sorted(defined))] if defined else []
+    return {"kind": "fs", "files": files, "user": {o: rng.choice(VALS) for o in OPT_POOL if rng.random() < 0.5}}
+
+
+# =================================================================== generation: sessions
+def _edit_same_length(v, rng):
+    """another definition of the same written length (a cache validated by file size must not hold)"""
+    if isinstance(v, bool) or v is None:
+        return v
+    if isinstance(v, int):
+        if v < 0:
+            return v
+        lo = 10 ** (len(str(v)) - 1) if v >= 10 else 0
+        cand = [x for x in range(lo, lo * 10 if lo else 10) if x != v]
+        return rng.choice(cand[:50])
+    if isinstance(v, str):
+        if "${{" in v or not v or not v[-1].isalpha():
+            return v
+        return v[:-1] + rng.choice([ch for ch in "qzjx" if ch != v[-1]])
+    return v
+
+
+def edit_inline(f, rng):
+    f = copy.deepcopy(f)
+    n = 0
+    for it in f["items"]:
+        if it["t"] == "obj":
+            for fld in it["fields"]:
+                if rng.random() < 0.6:
+                    new = _edit_same_length(fld[1], rng)
+                    n += rdef(new) != rdef(fld[1])
+                    fld[1] = new
+            for fr in it["friends"]:
+                for fld in fr["fields"]:
+                    if rng.random() < 0.4:
+                        fld[1] = _edit_same_length(fld[1], rng)
+        elif it["t"] == "opt" and it["has_default"] and rng.random() < 0.5:
+            it["default"] = _edit_same_length(it["default"], rng)
+    return f, n
+
+
+def gen_session(rng):
+    inline, user = gen_inline(rng)
+    fseed = rng.randint(0, 2 ** 31)
+    style = rng.choice([0, 1, 1])
+    steps = []
+    for i in range(rng.choice([2, 2, 3, 3, 4])):
+        how = "first"
+        if i:
+            r = rng.random()
+            if r < 0.55:
+                inline, n = edit_inline(inline, rng)
+                how = "edited" if n else "same"
+            elif r < 0.85:
+                inline, user = gen_inline(rng)
+                fseed = rng.randint(0, 2 ** 31)
+                how = "new"
+            else:
+                how = "same"
+        steps.append({"inline": inline, "user": user, "fseed": fseed, "fs_style": style, "how": how,
+                      "dir": rng.choice(["d0", "d0", "d1"]), "cont": bool(i) and rng.random() < 0.4})
+    return {"kind": "session", "steps": steps}
+
+
 def generate(rng, tier):
-    cases = list(gen_options_grid())
-    n_meta, n_tree, n_opt = (1000, 600, 300) if tier == "quick" else (16000, 7000, 3500)
+    cases = list(gen_options_grid()) + gen_names_grid()
+    n_meta, n_tree, n_opt = (800, 500, 250) if tier == "quick" else (16000, 7000, 3500)
+    n_names, n_fs, n_sess = (400, 300, 120) if tier == "quick" else (5000, 4000, 1500)
     if tier == "thorough":
         cases.extend(gen_options_dup_grid())
-    for _ in range(n_meta):
+    for _ in range(n_names):
+        cases.append(gen_names(rng))
+    for _ in range(n_fs):
+        cases.append(gen_fs(rng))
+    for _ in range(n_sess):
+        cases.append(gen_session(rng))
+    for i in range(n_meta):
         inline, user = gen_inline(rng)
         cases.append({"kind": "meta", "inline": inline, "user": user, "fseed": rng.randint(0, 2 ** 31)})
+        if i % 2:
+            cases[-1]["fs_style"] = 1
     for i in range(n_tree):
         cases.append({"kind": "tree", "main": gen_tree_diamond(rng) if i % 4 == 0 else gen_tree(rng), "user": {}})
     for _ in range(n_opt):
@@ -759,15 +1166,19 @@ def _two_iterations(f):
     return [2 * per, objs[0]["table"]] if per > 0 else None
 
 
-def _parse_and_run(path, user, target=None):
-    """-> (parse observable, rows observable, merged observable)"""
+def _parse_and_run(src, user, target=None, cont_in=None, cont_out=None):
+    """src: a path, or a function returning a fresh stream of the recipe text
+    -> (parse observable, rows observable, merged observable)"""
     from snowfakery import generate_data
     from snowfakery.parse_recipe_yaml import parse_recipe
     from snowfakery.data_generator import merge_options
     parse, merged = None, None
     try:
-        with open(path) as fh:
-            pr = parse_recipe(fh)
+        if callable(src):
+            pr = parse_recipe(src())
+        else:
+            with open(src) as fh:
+                pr = parse_recipe(fh)
         try:
             parse = {"ok": canon_parse(pr)}
         except (AttributeError, KeyError, TypeError) as e:
@@ -790,7 +1201,12 @@ def _parse_and_run(path, user, target=None):
     out = io.StringIO()
     try:
         kw = {"target_number": (target[0], target[1])} if target else {}
-        generate_data(path, user_options=dict(user), output_format="json", output_file=out, **kw)
+        if cont_in:
+            kw["continuation_file"] = cont_in
+        if cont_out:
+            kw["generate_continuation_file"] = cont_out
+        generate_data(src() if callable(src) else src, user_options=dict(user), output_format="json",
+                      output_file=out, **kw)
         txt = out.getvalue()
         data = json.loads(txt) if txt.strip() else []        # no rows at all: empty output
         rows = {"ok": [[[k, v] for k, v in row.items()] for row in data]}
@@ -799,6 +1215,95 @@ def _parse_and_run(path, user, target=None):
             raise
         rows = {"err": C.canon_exc(e)}
     return parse, rows, merged
+
+
+class _Reject(Exception):
+    pass
+
+
+def os_inline(root, rel="main.yml", stack=()):
+    """reference for a file system case, by the property's statement: the single file that has every
+    included file's lines written inline at the top (included files first, in the order of the
+    include_file lines, then the file's own lines).  Paths are followed by the
+    operating system (os.path.isfile / realpath on the files the harness wrote), relative to the
+    directory of the including file; raises _Reject for a missing file or a file that includes
+    itself directly or through others."""
+    import yaml
+    path = os.path.join(root, rel)
+    with open(path) as fh:
+        data = yaml.safe_load(fh) or []
+    me = os.path.realpath(path)
+    out = []
+    for it in data:
+        if isinstance(it, dict) and it.get("include_file"):
+            tgt = os.path.join(os.path.dirname(path), it["include_file"])
+            if not os.path.isfile(tgt):
+                raise _Reject("missing")
+            real = os.path.realpath(tgt)
+            if real == me or real in stack:
+                raise _Reject("cycle")
+            out.extend(os_inline(root, os.path.relpath(tgt, root), stack + (me,)))
+    out.extend(it for it in data if not (isinstance(it, dict) and it.get("include_file")))
+    return out
+
+
+def _text_source(text):
+    return lambda: io.StringIO(text)
+
+
+def _run_names(case):
+    import yaml
+    from snowfakery import generate_data
+    text = yaml.safe_dump(names_recipe(case), sort_keys=False, default_flow_style=False)
+    out = io.StringIO()
+    try:
+        generate_data(io.StringIO(text), user_options=dict(case["user"]), output_format="json", output_file=out)
+        txt = out.getvalue()
+        rows = {"ok": json.loads(txt) if txt.strip() else []}
+    except BaseException as e:
+        if isinstance(e, C._CaseTimeout):
+            raise
+        rows = {"err": C.canon_exc(e)}
+    return {"rows": rows}
+
+
+def _run_fs(case, tmp):
+    import yaml
+    root = os.path.join(tmp, "fs")
+    write_fs(case["files"], root)
+    p, r, m = _parse_and_run(os.path.join(root, "main.yml"), case["user"])
+    obs = {"parse": p, "rows": r, "merged": m}
+    try:
+        data = os_inline(root)
+        text = yaml.safe_dump(data, sort_keys=False, default_flow_style=False) if data else "[]\n"
+        ip, ir, im = _parse_and_run(_text_source(text), case["user"])
+        obs["inline"] = {"parse": ip, "rows": ir, "merged": im}
+    except _Reject as e:
+        obs["inline"] = {"reject": str(e)}
+    return obs
+
+
+def _run_session(case, tmp):
+    steps_obs = []
+    prev = {}                     # continuation files of the previous step: {"tree": path, "inline": path}
+    for k, st in enumerate(case["steps"]):
+        a, b, info = factorings(st)
+        d = os.path.join(tmp, st["dir"])
+        shutil.rmtree(d, ignore_errors=True)          # the step's files replace what an earlier step left there
+        write_tree(b, os.path.join(d, "main.yml"))
+        # continue only a run that succeeded (a failed run leaves an empty continuation file behind)
+        use_cont = bool(st.get("cont")) and len(prev) == 2 and all(os.path.exists(x) for x in prev.values()) and \
+            all("ok" in steps_obs[-1][key]["rows"] for key in ("tree", "inline"))
+        conts = {key: os.path.join(tmp, "cont_%s_%d.yml" % (key, k)) for key in ("tree", "inline")}
+        p, r, m = _parse_and_run(os.path.join(d, "main.yml"), st["user"],
+                                 cont_in=prev["tree"] if use_cont else None, cont_out=conts["tree"])
+        ip, ir, im = _parse_and_run(_text_source(file_text(st["inline"])), st["user"],
+                                    cont_in=prev["inline"] if use_cont else None, cont_out=conts["inline"])
+        steps_obs.append({"info": info, "continued": use_cont,
+                          "tree": {"parse": p, "rows": r, "merged": m},
+                          "inline": {"parse": ip, "rows": ir, "merged": im}})
+        prev = conts
+    return {"steps": steps_obs, "parse": steps_obs[-1]["tree"]["parse"]}
 
 
 def options_file(case):
@@ -836,6 +1341,12 @@ def run_impl(case):
             write_tree(options_file(case), os.path.join(tmp, "main.yml"))
             p, r, m = _parse_and_run(os.path.join(tmp, "main.yml"), case["user"])
             return {"parse": p, "rows": r, "merged": m}
+        if kind == "names":
+            return _run_names(case)
+        if kind == "fs":
+            return _run_fs(case, tmp)
+        if kind == "session":
+            return _run_session(case, tmp)
         raise ValueError(kind)
     finally:
         shutil.rmtree(tmp, ignore_errors=True)
@@ -848,6 +1359,19 @@ def _cfields(fields):
 
 def _cnames(names):
     return C.clist(C.cstr(n) for n in names)
+
+
+def _cstr_tabs(s):
+    """Coq string literal for a string that may hold tab characters"""
+    parts = s.split("\t")
+    term = C.cstr(parts[-1])
+    for part in reversed(parts[:-1]):
+        term = f'({C.cstr(part)} ++ String "009"%char {term})'
+    return term
+
+
+def _cinc(it):
+    return f"(split_includes {_cstr_tabs(raw_include(it))})"
 
 
 def _cfriends(frs):
@@ -865,12 +1389,77 @@ def cfile(f):
             opts.append(f"(mkOpt {C.cstr(it['name'])} {d})")
         elif t == "macro":
             macs.append(C.cpair(C.cstr(it["name"]),
-                                f"mkMacro {_cnames(it['include'])} {_cfields(it['fields'])} {_cfriends(it['friends'])}"))
+                                f"mkMacro {_cinc(it)} {_cfields(it['fields'])} {_cfriends(it['friends'])}"))
         elif t == "obj":
-            stmts.append(f"(SObj {C.cstr(it['table'])} {_cnames(it['include'])} {_cfields(it['fields'])} {_cfriends(it['friends'])})")
+            stmts.append(f"(SObj {C.cstr(it['table'])} {_cinc(it)} {_cfields(it['fields'])} {_cfriends(it['friends'])})")
         elif t == "var":
             stmts.append(f"(SVar {C.cstr(it['name'])} {C.cstr(rdef(it['value']))})")
     return f"(File {C.clist(incs)} {C.clist(opts)} {C.clist(macs)} {C.clist(stmts)})"
+
+
+def cpath(rel):
+    return C.clist(C.cstr(x) for x in rel.split("/"))
+
+
+def cfs(files):
+    """{relative path: file node} -> fsys; include_file strings split at '/' """
+    ents = []
+    for rel, f in files.items():
+        incs, opts, macs, stmts = [], [], [], []
+        for it in f["items"]:
+            t = it["t"]
+            if t == "inc":
+                incs.append(cpath(it["path"]))
+            elif t == "opt":
+                d = f"(Some {coval(tag(it['default']))})" if it["has_default"] else "None"
+                opts.append(f"(mkOpt {C.cstr(it['name'])} {d})")
+            elif t == "macro":
+                macs.append(C.cpair(C.cstr(it["name"]),
+                                    f"mkMacro {_cinc(it)} {_cfields(it['fields'])} {_cfriends(it['friends'])}"))
+            elif t == "obj":
+                stmts.append(f"(SObj {C.cstr(it['table'])} {_cinc(it)} {_cfields(it['fields'])} {_cfriends(it['friends'])})")
+            elif t == "var":
+                stmts.append(f"(SVar {C.cstr(it['name'])} {C.cstr(rdef(it['value']))})")
+        ents.append(C.cpair(cpath(rel), f"FsFile {C.clist(incs)} {C.clist(opts)} {C.clist(macs)} {C.clist(stmts)}"))
+    return C.clist(ents)
+
+
+def _cfs_run(files, p):
+    return C.cpair(C.cpair(cfs(files), cpath("main.yml")), _cparse_expected(p))
+
+
+LAYERS = ["builtin", "option", "object", "field", "plugin", "var", "func"]
+
+
+def _clayer_val(v):
+    return coval(["s", v]) if isinstance(v, str) else coval(v)
+
+
+def _cseen(case, obs):
+    rows = obs.get("rows")
+    if not rows or "ok" not in rows or names_value(case)[0] != "value":
+        return None
+    name = case["name"]
+    probes = []
+    for site, i, fld, seen in names_probes(case, rows["ok"]):
+        lay = names_layers(case, site, i, fld)
+        allowed = []
+        for l in LAYERS:
+            v = lay.get(l)
+            if v is None:
+                continue
+            if isinstance(v, str) or shown(v, case["shape"]) == str(seen):
+                allowed.append(_clayer_val(v))        # opaque objects may show anything
+        if not allowed:
+            allowed = [coval(["s", "?nothing-explains-the-value"])]
+        sc = " ".join(C.clist([C.cpair(C.cstr(name), _clayer_val(lay[l]))] if (l in lay and l != "option") else [])
+                      for l in LAYERS)
+        probes.append(C.cpair(C.cpair(f"(mkScopes {sc})", C.cstr(name)), C.clist(allowed)))
+    decls = C.clist([f"mkOpt {C.cstr(name)} " + (f"(Some {coval(tag(case['decl']['default']))})"
+                                                   if case["decl"]["has_default"] else "None"),
+                     f"mkOpt {C.cstr('n')} (Some {coval(['i', 7])})"])
+    user = C.clist(C.cpair(C.cstr(k), coval(tag(v))) for k, v in case["user"].items())
+    return f"CSeen {decls} {user} {C.clist(probes)}"
 
 
 def _cparse_expected(p):
@@ -898,6 +1487,24 @@ def coq_case(case, obs):
         if p is None or "skip" in p:
             return None
         term = f"CParse {cfile(f)} {_cparse_expected(p)}"
+        return term if _printable(term) else None
+    if kind == "names":
+        term = _cseen(case, obs)
+        return term if term and _printable(term) else None
+    if kind == "fs":
+        p = obs.get("parse")
+        if p is None or "skip" in p:
+            return None
+        term = f"CFs [{_cfs_run(case['files'], p)}]"
+        return term if _printable(term) else None
+    if kind == "session":
+        runs = []
+        for st, o in zip(case["steps"], obs.get("steps", [])):
+            p = o["tree"]["parse"]
+            if p is None or "skip" in p:
+                return None
+            runs.append(_cfs_run(tree_fs(factorings(st)[1]), p))
+        term = f"CFs {C.clist(runs)}"
         return term if _printable(term) else None
     if kind == "options":
         m = obs.get("merged")
@@ -1105,6 +1712,82 @@ def oracle(case, obs):
         return None
     if kind == "options":
         return _option_rule(case["decls"], case["user"], obs, "recipe") or _seen_rule(case, obs)
+    if kind == "names":
+        return _names_oracle(case, obs)
+    if kind == "fs":
+        return _fs_oracle(case, obs)
+    if kind == "session":
+        for k, (st, o) in enumerate(zip(case["steps"], obs["steps"])):
+            msg = _same_as_inline(o["tree"], o["inline"],
+                                  f"session step {k + 1}/{len(case['steps'])} ({st['how']}, directory {st['dir']}"
+                                  f"{', continued' if o['continued'] else ''}): statements factored into include files")
+            if msg:
+                return msg
+        return None
+
+
+def _same_as_inline(o, base, what):
+    if "skip" not in o["parse"] and "skip" not in base["parse"] and o["parse"] != base["parse"]:
+        return (f"transparency: {what}: parsed templates differ from the inline recipe: "
+                f"{json.dumps(o['parse'])[:400]} vs inline {json.dumps(base['parse'])[:400]}")
+    if o["rows"] != base["rows"]:
+        return (f"transparency: {what}: rows differ from the inline recipe: "
+                f"{json.dumps(o['rows'])[:400]} vs inline {json.dumps(base['rows'])[:400]}")
+    return None
+
+
+def _fs_oracle(case, obs):
+    p, base = obs["parse"], obs["inline"]
+    if "reject" in base:
+        if "ok" in p or "ok" in obs["rows"]:
+            return (f"include_file: a recipe with a {base['reject']} include file "
+                    f"({'file that includes itself' if base['reject'] == 'cycle' else 'missing file'}) was accepted")
+        if "err" in p and p["err"] != "DGE":
+            return f"include_file: {base['reject']} include file reported as {p['err']} instead of a recipe error"
+        return None
+    return _same_as_inline(obs, base, "include files followed from the including file's directory")
+
+
+def _names_closer(case, lay):
+    return [l for l in ("object", "field", "plugin", "var", "func") if l in lay]
+
+
+def _names_oracle(case, obs):
+    """the property's option rule as formulas see it: ${{name}} shows the supplied value, else the
+    default, wherever no closer scope (object name, own field, plugin, variable, function) defines
+    the name; whatever the name is"""
+    name, rows = case["name"], obs["rows"]
+    kind, v = names_value(case)
+    how = f"user={case['user'].get(name, '<absent>')!r} default={case['decl']['default'] if case['decl']['has_default'] else '<none>'!r}"
+    if kind == "error":
+        if "ok" in rows:
+            return f"options: option {name} has neither a user value nor a default but the recipe ran"
+        if rows["err"] != "DGE":
+            return f"options: missing option {name} reported as {rows['err']} instead of a recipe error"
+        return None
+    opaque_everywhere = case["plugin"] or name in FUNC_NAMES or \
+        case["obj"] in ("table_before", "nick_before", "table_after", "nick_after")
+    if "err" in rows:
+        if not opaque_everywhere and not case["obj"]:
+            return (f"names: option {name} ({how}) has the value {v!r} but the recipe that reads "
+                    f"${{{{{name}}}}} failed with {rows['err']}")
+        return None
+    if case["count_read"]:
+        got = sum(1 for r in rows["ok"] if r.get("_table") == "R")
+        if got != int(v):
+            return (f"names: `count: ${{{{{name}}}}}` made {got} rows but option {name} is {v!r} ({how})")
+    rn = [r.get("rn") for r in rows["ok"] if r.get("_table") == "R"]
+    if any(str(x) != "7" for x in rn):
+        return f"names: option n (default 7) shows {rn} next to option {name}"
+    for site, i, fld, seen in names_probes(case, rows["ok"]):
+        lay = names_layers(case, site, i, fld)
+        if _names_closer(case, lay):
+            continue
+        want = shown(tag(v), case["shape"])
+        if str(seen) != want:
+            return (f"names: {shape_text(case['shape'], name)} in {names_tables(case)[site]}.{fld} (row {i + 1}) shows "
+                    f"{seen!r} but option {name} is {v!r} ({how}) and no closer scope defines {name}")
+    return None
 
 
 def violation_class(case, obs, msg):
@@ -1132,6 +1815,14 @@ def nontrivial(case, obs):
         c = Counter()
         _count_items(case["main"], c)
         return c["obj_with_include"] >= 1 or c["inc"] >= 1
+    if case["kind"] == "names":
+        # the option's name is also defined by some other scope, and the recipe ran
+        return "ok" in obs.get("rows", {}) and (case["name"] in BUILTIN_NAMES + FUNC_NAMES or case["plugin"]
+                                                or case["var"] or case["field"] or bool(case["obj"]))
+    if case["kind"] == "fs":
+        return any(it["t"] == "inc" for f in case["files"].values() for it in f["items"])
+    if case["kind"] == "session":
+        return len(case["steps"]) >= 2 and any(o["info"].get("files", 0) for o in obs.get("steps", []))
     return len(case["decls"]) >= 1
 
 
@@ -1141,8 +1832,61 @@ def stats(cases, obss):
     tree = Counter()
     outcomes = Counter()
     optc = Counter()
+    namec, fsc, sessc = Counter(), Counter(), Counter()
     for c, o in zip(cases, obss):
-        if not isinstance(o, dict) or "parse" not in o:
+        if not isinstance(o, dict):
+            continue
+        if c["kind"] == "names" and "rows" in o:
+            namec["name:" + ("builtin" if c["name"] in BUILTIN_NAMES else "plugin" if c["name"] in PLUGIN_NAMES
+                             else "function" if c["name"] in FUNC_NAMES else "ordinary")] += 1
+            if c["name"] in BUILTIN_NAMES:
+                namec["builtin:" + c["name"]] += 1
+            namec["run:" + ("ok" if "ok" in o["rows"] else o["rows"]["err"])] += 1
+            kind, v = names_value(c)
+            namec["value:" + ("missing" if kind == "error" else "user" if c["name"] in c["user"] else "default")] += 1
+            namec["falsy_values"] += kind == "value" and not v
+            for k in ("var", "field", "plugin", "count_read"):
+                namec["with_" + k] += bool(c[k])
+            namec["with_obj:" + str(c["obj"])] += 1
+            namec["version3"] += c["version"] == 3
+            namec["shape:" + SHAPES[c["shape"]]] += 1
+            if "ok" in o["rows"]:
+                for site, i, fld, seen in names_probes(c, o["rows"]["ok"]):
+                    lay = names_layers(c, site, i, fld)
+                    closer = _names_closer(c, lay)
+                    namec["probes"] += 1
+                    namec["probes:option_visible"] += not closer
+                    namec["probes:option_visible_over_builtin"] += (not closer) and "builtin" in lay
+                    for l in closer:
+                        namec["probes:shadowed_by_" + l] += 1
+            continue
+        if c["kind"] == "fs" and "inline" in o:
+            fsc["files"] += len(c["files"])
+            incs = [it["path"] for f in c["files"].values() for it in f["items"] if it["t"] == "inc"]
+            fsc["include_lines"] += len(incs)
+            fsc["paths_with_dotdot"] += sum(".." in x.split("/") for x in incs)
+            fsc["paths_with_dot_or_double_slash"] += sum(x.startswith("./") or "//" in x for x in incs)
+            bases = Counter(posixpath.basename(x) for x in c["files"])
+            fsc["cases_with_colliding_base_names"] += any(n > 1 for n in bases.values())
+            fsc["reference:" + (o["inline"].get("reject") or "accepted")] += 1
+            p = o["parse"]
+            fsc["parse:" + ("ok" if p and "ok" in p else (p or {}).get("err", "unobservable"))] += 1
+            continue
+        if c["kind"] == "session" and "steps" in o:
+            sessc["sessions"] += 1
+            sessc["steps"] += len(c["steps"])
+            for st, so in zip(c["steps"], o["steps"]):
+                sessc["step:" + st["how"]] += 1
+                sessc["step_dir:" + st["dir"]] += 1
+                sessc["steps_continued"] += so["continued"]
+                sessc["steps_with_files"] += bool(so["info"].get("files"))
+                sessc["steps_with_colliding_names"] += bool(so["info"].get("colliding_names"))
+                r = so["tree"]["rows"]
+                sessc["rows:" + ("ok" if "ok" in r else r["err"])] += 1
+            dirs = [st["dir"] for st in c["steps"]]
+            sessc["sessions_rewriting_a_directory"] += len(set(dirs)) < len(dirs)
+            continue
+        if "parse" not in o:
             continue
         p = o["parse"]
         outcomes[c["kind"] + ":parse:" + ("ok" if p and "ok" in p else (p or {}).get("err", "unobservable"))] += 1
@@ -1169,7 +1913,7 @@ def stats(cases, obss):
             optc["falsy_defaults"] += sum(1 for d in c["decls"] if d["has_default"] and not d["default"])
             optc["undeclared_user_options"] += sum(1 for k in c["user"] if k not in {d["name"] for d in c["decls"]})
     return {"kinds": dict(kinds), "meta": dict(meta), "tree_items": dict(tree), "outcomes": dict(outcomes),
-            "options": dict(optc)}
+            "options": dict(optc), "names": dict(namec), "fs": dict(fsc), "session": dict(sessc)}
 
 
 # =================================================================== shrinking / directed search
@@ -1202,6 +1946,44 @@ def shrink(case):
     elif kind == "tree":
         for g in _shrink_file(case["main"]):
             yield dict(case, main=g)
+    elif kind == "names":
+        for k in ("var", "field", "plugin", "count_read"):
+            if case[k]:
+                yield dict(case, **{k: False})
+        if case["obj"]:
+            yield dict(case, obj=None)
+        if case["rcount"] > 1:
+            yield dict(case, rcount=1)
+        if case["shape"]:
+            yield dict(case, shape=0)
+        if case["version"] == 3:
+            yield dict(case, version=2)
+        for k in list(case["user"]):
+            if k != case["name"]:
+                yield dict(case, user={a: b for a, b in case["user"].items() if a != k})
+    elif kind == "fs":
+        files = case["files"]
+        for rel in files:
+            if rel != "main.yml":
+                yield dict(case, files={k: v for k, v in files.items() if k != rel})
+        for rel, f in files.items():
+            for i in range(len(f["items"])):
+                yield dict(case, files=dict(files, **{rel: {"items": f["items"][:i] + f["items"][i + 1:]}}))
+        for k in list(case["user"]):
+            yield dict(case, user={a: b for a, b in case["user"].items() if a != k})
+    elif kind == "session":
+        steps = case["steps"]
+        for i in range(len(steps)):
+            if len(steps) > 1:
+                yield dict(case, steps=steps[:i] + steps[i + 1:])
+        for i, st in enumerate(steps):
+            if st.get("cont"):
+                yield dict(case, steps=steps[:i] + [dict(st, cont=False)] + steps[i + 1:])
+            if st.get("fs_style"):
+                yield dict(case, steps=steps[:i] + [dict(st, fs_style=0)] + steps[i + 1:])
+        for i, st in enumerate(steps):
+            for g in _shrink_file(st["inline"]):
+                yield dict(case, steps=steps[:i] + [dict(st, inline=g)] + steps[i + 1:])
     else:
         for i in range(len(case["decls"])):
             yield dict(case, decls=case["decls"][:i] + case["decls"][i + 1:])
@@ -1210,7 +1992,13 @@ def shrink(case):
 
 
 def directed_search(rng, disagreeing):
-    out = list(gen_options_grid())
+    out = list(gen_options_grid()) + gen_names_grid()
+    for _ in range(900):
+        out.append(gen_names(rng))
+    for _ in range(700):
+        out.append(gen_fs(rng))
+    for _ in range(300):
+        out.append(gen_session(rng))
     # the disagreeing cases' neighbours: the same inline recipes under other factorings
     for c in disagreeing:
         if c.get("kind") == "meta":
